@@ -48,6 +48,24 @@ const RESERVED: &[&str] = &[
     "with",
 ];
 
+/// Identifiers that are additionally not allowed as binding names in strict mode code
+/// (ES modules and class bodies are always strict), so they cannot be parameter names.
+const STRICT_MODE_RESERVED: &[&str] = &[
+    "arguments",
+    "await",
+    "enum",
+    "eval",
+    "implements",
+    "interface",
+    "let",
+    "package",
+    "private",
+    "protected",
+    "public",
+    "static",
+    "yield",
+];
+
 /// From https://developer.mozilla.org/en-US/docs/Web/JavaScript/Reference/Global_Objects.
 ///
 /// If you create a class from these, JS will error. So we throw an error if that happens.
@@ -291,7 +309,7 @@ impl<'tcx> JSFormatter<'tcx> {
 
     pub fn fmt_param_name<'a>(&self, param_name: &'a str) -> Cow<'a, str> {
         let name = param_name.to_lower_camel_case();
-        if RESERVED.contains(&&*name) {
+        if RESERVED.contains(&&*name) || STRICT_MODE_RESERVED.contains(&&*name) {
             format!("{name}_").into()
         } else {
             name.into()
